@@ -431,6 +431,21 @@ def check_forms(res: JobResult, endian):
                     if not same(term, exp_arr) or tell0 != len(data) + sz:
                         viol(res, "forms:terminated-array", canon, endian, f"{canon}[] decodes {data.hex()}+terminator to {term} (consumed {tell0}), the scalar codec gives {exp_arr} ({len(data) + sz})", **case)
                         continue
+                    # ... and as members of a structure: counted by a field, to the end of the stream, both readers
+                    for compiled in (False, True):
+                        csf = cstruct(endian=endian)
+                        csf.load(f"struct DynF {{ uint8 n; {canon} x[n]; uint8 t; }};\nstruct EofF {{ uint8 h; {canon} x[EOF]; }};", compiled=compiled)
+                        dv = csf.DynF(bytes([k]) + data + b"\x7e")
+                        ev = csf.EofF(b"\x11" + data)
+                        if not same(impl.norm(dv.x), exp_arr) or dv.t != 0x7E:
+                            viol(res, "forms:counted-member", canon, endian, f"{canon} x[n] (n={k}, compiled={compiled}) decodes {data.hex()} to {impl.norm(dv.x)}, the scalar codec gives {exp_arr}", **case)
+                            break
+                        if not same(impl.norm(ev.x), exp_arr):
+                            viol(res, "forms:eof-member", canon, endian, f"{canon} x[EOF] (compiled={compiled}) decodes {data.hex()} to {impl.norm(ev.x)}, the scalar codec gives {exp_arr}", **case)
+                            break
+                        if "nan" not in repr(exp) and (dv.dumps() != bytes([k]) + data + b"\x7e" or ev.dumps() != b"\x11" + data):
+                            viol(res, "forms:member-encode", canon, endian, f"{canon} x[n] / x[EOF] (compiled={compiled}) holding {exp_arr} dump {dv.dumps().hex()} / {ev.dumps().hex()}", **case)
+                            break
                     if "nan" in repr(exp):
                         continue
                     d1 = T[k].dumps(fixed if not isinstance(exp_arr, bytes) else exp_arr)
